@@ -195,6 +195,14 @@ def c19mup : Drv where
           | .error e => e.name
           | .ok l => "ok " ++ joinOr "," (sortStrs (l.map (fun x => x.1 ++ ":" ++ Nat.repr x.2.id ++
                         (if x.1 == s.name && !stateOk s.run x.2 then ":BADSTATE" else "")))))
+    | ["recoverm", m, _] =>
+      -- r6: recovery through a persister constructed with ANOTHER maximum_pending_updates (reader ≠ writer)
+      let r := readAll { s.cfg with maxPending := nat! m } okSched { store := s.run.w.store }
+      (s, if Ldk.Persist.recoveryReadsMaxPending then "read-path-consults-maximum_pending_updates (not modelled)" else
+          match r.2 with
+          | .error e => e.name
+          | .ok l => "ok " ++ joinOr "," (sortStrs (l.map (fun x => x.1 ++ ":" ++ Nat.repr x.2.id ++
+                        (if x.1 == s.name && !stateOk s.run x.2 then ":BADSTATE" else "")))))
     | ["keys", _] => (s, "keys " ++ joinOr "," (sortStrs (s.run.w.store.keys.map plainKey)))
     | _ => (s, "bad-op")
 
